@@ -77,6 +77,47 @@ def _dict_paths(x, path=()):
     return out
 
 
+def restricted_wildcards(ctx):
+    """Unknown content whose LOCAL name also occurs, in an admitted namespace, earlier or later in the same document:
+    a ##other wildcard admits o:note / o:id and must not thereby admit w:note / w:id (the target namespace)."""
+    import itertools
+
+    from xsdata.formats.dataclass.context import XmlContext
+    from xsdata.formats.dataclass.parsers import XmlParser
+
+    from .. import handler_bind as hb
+    from ..poly_models import WildBoth
+
+    head = '<w:WildBoth xmlns:w="urn:wild" xmlns:o="urn:o"{attrs}><w:head>h</w:head>{body}</w:WildBoth>'
+    good_el, bad_el = "<o:note>n</o:note>", "<w:note><w:x>1</w:x></w:note>"
+    good_at, bad_at = ' o:id="1"', ' w:id="2"'
+    xctx = XmlContext()
+    n = 0
+    for up, ua, cw in itertools.product((False, True), repeat=3):
+        cfg = ParserConfig(fail_on_unknown_properties=up, fail_on_unknown_attributes=ua, fail_on_converter_warnings=cw)
+        for h in ("native", "lxml"):
+            base = XmlParser(context=XmlContext(), handler=hb.HANDLERS[h], config=cfg).from_string(head.format(attrs=good_at, body=good_el), WildBoth)
+            docs = {"element after": (head.format(attrs=good_at, body=good_el + bad_el), "el"),
+                    "element before": (head.format(attrs=good_at, body=bad_el + good_el), "el"),
+                    "attribute after": (head.format(attrs=good_at + bad_at, body=good_el), "at"),
+                    "attribute before": (head.format(attrs=bad_at + good_at, body=good_el), "at")}
+            for name, (text, kind) in docs.items():
+                n += 1
+                ctx.case(("restricted-wildcard", name, up, ua, cw, h))
+                try:
+                    got = ("ok", XmlParser(context=xctx, handler=hb.HANDLERS[h], config=cfg).from_string(text, WildBoth))
+                except Exception as ex:  # noqa: BLE001
+                    got = ("exc", ex)
+                strict = up if kind == "el" else ua
+                info = {"text": text, "handler": h, "options": {"unknownProps": up, "unknownAttrs": ua, "convWarnings": cw}}
+                if strict:
+                    if got[0] != "exc" or not isinstance(got[1], ParserError):
+                        ctx.violation(f"restricted wildcard, unknown {name} (strict, {h}): expected ParserError, got {repr(got[1])[:200]}", info)
+                elif got[0] != "ok" or got[1] != base:
+                    ctx.violation(f"restricted wildcard, unknown {name} (lenient, {h}) changed the result: {repr(got[1])[:250]} vs {base!r}", info)
+    ctx.extra["restricted_wildcard_cases"] = n
+
+
 def dict_poly(ctx):
     """Unknown keys at every object level of documents with polymorphic objects x the 8 option combinations."""
     import itertools
@@ -191,6 +232,7 @@ def run(ctx):
         check_case(ctx, case)
     dict_options(ctx, cases)
     dict_poly(ctx)
+    restricted_wildcards(ctx)
     if cases:
         c = next((x for x in cases if x["fault"] == "unknownLast"), cases[0])
         ctx.sample({"fault": c["fault"], "options": c["cfg"], "document": rb.render_doc(rb.faulted(c["doc"], c["fault"], c["evs"], c["m"]), 0),
